@@ -59,6 +59,11 @@ def rnd_part(rng, hi):
     nvm = rng.choice([0, 0, 1, 3, 5, 8, hi])
     if style < 0.5:
         vm = sorted(rng.sample(range(hi + 3), min(nvm, hi + 3)))          # what the generators produce
+    elif style < 0.62 and nvm >= 3:
+        # what exporters write: a dense map 0..n-1 that is NOT ascending but still starts at 0 and ends at n-1
+        mid = list(range(1, nvm - 1))
+        rng.shuffle(mid)
+        vm = [0] + mid + [nvm - 1]
     else:
         vm = [rng.choice([rng.randrange(0, hi + 3), 65535, 65534]) if rng.random() < 0.05 else rng.randrange(0, hi + 3) for _ in range(nvm)]
     p["vm"] = vm
